@@ -457,6 +457,39 @@ func (e *env) checkRouting(flight []byte, ref *tls.ClientHelloInfo, cfg, kind, t
 		c.Violation("C07 crash panic in "+out.panicAt+" (routing "+tag+")", fmt.Sprintf("matcher panicked: %v", out.err), &Witness{Kind: "routing", Class: tag, RecordHex: hex.EncodeToString(flight), Matcher: cfg, Spec: spec})
 		return
 	}
+	// reload law (a sample): the same matcher configuration is provisioned again while the first instance exists, the
+	// first one is released; the new instance decides like the reference, and the released one - connections accepted
+	// before the reload still reach it - does not start to match hellos that its sub-matchers reject
+	if fw.Hash("c07reload", cfg, len(flight))%16 == 0 {
+		vNew, vOld := out.v, out.v
+		func() {
+			defer func() { _ = recover() }()
+			a, err := mt.Load("tls", cfg)
+			if err != nil {
+				return
+			}
+			b, err := mt.Load("tls", cfg)
+			if err != nil {
+				a.Close()
+				return
+			}
+			a.Close()
+			vNew = evalOn(b, flight).v
+			vOld = evalOn(a, flight).v
+			b.Close()
+		}()
+		c.Obs("reload_evaluations", 1)
+		if (vNew == mt.Yes) != want && vNew != "panic" {
+			c.Violation("C07 "+kind+" routing verdict differs after the configuration was provisioned again and the earlier instance released: "+origin(tag),
+				fmt.Sprintf("matcher config %s: the reference sub-matchers say %v, an instance provisioned beside an earlier one with the same configuration (released since) says %s", cfg, want, vNew),
+				&Witness{Kind: "routing", Class: tag, RecordHex: hex.EncodeToString(flight), Matcher: cfg, Spec: spec, Ref: infoOf(ref), Note: "reload"})
+		}
+		if vOld == mt.Yes && !want {
+			c.Violation("C07 "+kind+" routing: a released tls matcher matches a hello that its sub-matchers reject: "+origin(tag),
+				fmt.Sprintf("matcher config %s: the reference sub-matchers say no; the instance says %s after its configuration was unloaded", cfg, vOld),
+				&Witness{Kind: "routing", Class: tag, RecordHex: hex.EncodeToString(flight), Matcher: cfg, Spec: spec, Ref: infoOf(ref), Note: "released"})
+		}
+	}
 	if (out.v == mt.Yes) != want || (out.v != mt.Yes && out.v != mt.No) {
 		sig := fmt.Sprintf("C07 %s routing verdict differs: %s", kind, tag)
 		if nrec > 1 {
